@@ -84,6 +84,8 @@ def gen_cases(ctx, n_per_kind):
                     p["ellip_2"] = p["ellip_1"]
                 else:
                     p["ellip_1"], p["ellip_2"], p["f_1"] = float(rng.uniform(0.3, 0.4)), float(rng.uniform(0.65, 0.8)), float(rng.uniform(0.2, 0.4))
+                    if i % 3 == 1 and kind != "pixel":
+                        p["ellip_2"] = 0.8             # the upper edge of the stated range, as for the single profiles
             if np.asarray(psf).shape[0] % 2 == 0:
                 # an even stamp is centred between pixels: the renderers shift by the half pixel in Fourier space (band-limited
                 # interpolation of the pixel-integrated image), the reference shifts the analytic profile; the two agree for sampled
